@@ -139,6 +139,24 @@ theorem generated_id_old_outside :
   ⟨{ pfx := [true], nodes := [], cap := 8 }, 0, [false, false, false, false, false, false, false, false],
     by decide, by decide, by decide⟩
 
+/-- The state the table depends on is not mutated by any operation of a history: the table's own identifier stays the one
+    it was created with (the split permission is always evaluated against the same id) ... -/
+theorem own_id_fixed (hm : 1 ≤ m) (me : Bits) (ops : List Op) (hv : ValidHistory w ops) :
+    (run (RT.init me m) ops).me = me := (run_inv hm me ops hv).2
+
+/-- ... and the only thing the environment can do to a stored node (`setNode`: failure count, contact times, rtt) leaves
+    every stored identifier where it is; identifiers enter and leave the table through `add` and the evictions/removals
+    only.  (In the code this is an isolation requirement on the callers: the community hands the Network a copy
+    `Peer(node.key, node.address)`, never the stored Node object, and fixes `my_node_id` when the table is created; the
+    harness checks it on histories of a real DHTCommunity with address changes of peers and of ourselves.) -/
+theorem setNode_keeps_ids (rt : RT) (id : Bits) (failed : Nat) (recent : Bool) (rtt : Nat) :
+    (rt.setNode id failed recent rtt).allNodes.map (·.id) = rt.allNodes.map (·.id) ∧ (rt.setNode id failed recent rtt).me = rt.me := by
+  refine ⟨?_, rfl⟩
+  simp only [RT.setNode, RT.allNodes, RT.buckets, Trie.values_mapVals, List.flatMap_map, List.map_flatMap]
+  congr 1
+  funext b
+  exact map_set_ids b.nodes id failed recent rtt
+
 /-- The clause-deciding guards that the translator reads from the source and the model consumes (each theorem named here
     stops building when its guard is false - checked by flipping every flag): the split in `RoutingTable.add` is dominated
     by `owns(self.my_node_id)` (`split_only_on_own_path`, and with it the whole invariant); `Bucket.split` hands its capacity
